@@ -94,6 +94,23 @@ class ChargeQueueing(VehicleState):
             msg = f"vehicle doesn't have access to station; context: {context}"
             return SimulationStateError(msg), None
         else:
+            # a vehicle that could not use the plug once it is granted must not wait for it:
+            # it would be passed over at the head of the queue, time step after time step
+            mechatronics = env.mechatronics.get(vehicle.mechatronics_id)
+            charger_err, charger = station.get_charger_instance(self.charger_id)
+            if mechatronics is None:
+                return (
+                    SimulationStateError(f"unknown mechatronics id {vehicle.mechatronics_id}"),
+                    None,
+                )
+            elif charger_err is not None:
+                return charger_err, None
+            elif charger is None:
+                return None, None
+            elif not mechatronics.valid_charger(charger):
+                msg = f"vehicle {vehicle.id} of type {vehicle.mechatronics_id} can't use charger {charger.id}"
+                return SimulationStateError(msg), None
+
             err1, updated_station = station.enqueue_for_charger(self.charger_id)
             if err1 is not None:
                 return err1, None
